@@ -110,6 +110,11 @@ class VariantJob:
         self.nc = sum(ncoords(v) for v in self.vs)
         self.snames = OPS.scalar_params(modname, self.cfn, self.nc)
         self.base_id = f"{prop}/{pk}.{modname}[{sig_str(self.sig)}]"
+        self.spec = None
+        if prop == "C02":
+            from . import specs
+            order = [c for c in self.sig if isinstance(c, str)]
+            self.spec = specs.SPECS.get((pk, modname) + tuple(order))
 
     # ---- one case
     def setup_case(self, case_name, kinds, tau_cases):
@@ -137,7 +142,7 @@ class VariantJob:
                 tt = tau_cases[ti]; ti += 1
             coords.append(mk_operand(str(i + 1), v, tau_case=tc, t_case=tt))
         views = [view(v, c) for v, c in zip(self.vs, coords)]
-        for f in OPS.op_requires(self.pk, self.modname, case_name, scal, views):
+        for f in OPS.op_requires(self.pk, self.modname, case_name, scal, views, self.prop):
             ctx.hyp(f, pre=True)
         return ctx, scal, sargs, coords, views
 
@@ -159,6 +164,10 @@ class VariantJob:
         t0 = time.time()
         if self.csig == self.sig and self.prop == "C01":
             res["status"] = "reference"
+            return res
+        if self.prop == "C02" and self.spec is None:
+            res["status"] = "error"
+            res["err"] = "no spec function for this operation"
             return res
         worst = "proved"
         try:
@@ -190,15 +199,23 @@ class VariantJob:
                 return "proved"
         flat_views = [c for vw in views for c in vw]
         flat_coords = [c for cs in coords for c in cs]
-        ref = self.cfn(LIB, *sargs, *flat_views)
         scalar_result = self.returns in ([float], [bool])
-        if not scalar_result:
-            oc = [r for r in self.returns if r is not None]
-            rc = [r for r in self.creturns if r is not None]
-            ref_t = ref if isinstance(ref, tuple) else (ref,)
-            refv = view(rc, list(ref_t))
-            for f in OPS.result_rep(oc, refv):
-                ctx.hyp(f, pre=True)
+        if self.spec is not None:
+            ref = self.spec(LIB, scal, views)
+            if not scalar_result:
+                oc = [r for r in self.returns if r is not None]
+                refv = [A.of(c) for c in ref]
+                for f in OPS.result_rep(oc, refv):
+                    ctx.hyp(f, pre=True)
+        else:
+            ref = self.cfn(LIB, *sargs, *flat_views)
+            if not scalar_result:
+                oc = [r for r in self.returns if r is not None]
+                rc = [r for r in self.creturns if r is not None]
+                ref_t = ref if isinstance(ref, tuple) else (ref,)
+                refv = view(rc, list(ref_t))
+                for f in OPS.result_rep(oc, refv):
+                    ctx.hyp(f, pre=True)
         got = self.fn(LIB, *sargs, *flat_coords)
         goals = []
         if scalar_result:
@@ -303,6 +320,12 @@ class VariantJob:
         shrink = m.mpf(rng.choice([1, 0.5, 0.2, 0.05]))
         grow = m.mpf(rng.choice([1, 3, 10, 40]))
         mod = self.modname
+        if mod == "rotate_quaternion" and self.prop in ("C02", "C10"):
+            q = [d for d in ctx.inputs if "scalar" in d and d["scalar"] in ("u", "i", "j", "k")]
+            n = m.sqrt(sum(base[d["vars"]] ** 2 for d in q))
+            if n > 0:
+                for d in q:
+                    base[d["vars"]] = base[d["vars"]] / n
         for d in ctx.inputs:
             if "scalar" in d:
                 if d["scalar"] == "beta":
@@ -344,7 +367,10 @@ class VariantJob:
             flat = [c for v in vec for c in v]
             nviews = [num_view(v, c) for v, c in zip(self.vs, vec)]
             r_got = NL.run_real(self.fn, sargs + flat)
-            r_ref = NL.run_real(self.cfn, sargs + [c for v in nviews for c in v])
+            if self.spec is not None:
+                r_ref = self.spec(NL.MPLIB, dict(zip(self.snames, sargs)), nviews)
+            else:
+                r_ref = NL.run_real(self.cfn, sargs + [c for v in nviews for c in v])
         except (NL.OutsideDomain, ZeroDivisionError, ValueError, TypeError):
             return None
         if not NL.finite(r_got) or not NL.finite(r_ref):
@@ -358,7 +384,7 @@ class VariantJob:
             rc = [r for r in self.creturns if r is not None]
             try:
                 cmp_got = num_view(oc, list(r_got))
-                cmp_ref = num_view(rc, list(r_ref))
+                cmp_ref = list(r_ref) if self.spec is not None else num_view(rc, list(r_ref))
             except (ZeroDivisionError, ValueError):
                 return None
             if not NL.finite(cmp_got) or not NL.finite(cmp_ref):
@@ -389,7 +415,8 @@ class VariantJob:
             return None
         return dict(function=f"{self.mod.__name__}:{self.fn.__name__}", signature=sig_str(self.sig), scalars=[_s(x) for x in sargs],
                     stored=[[_s(c) for c in v] for v in vec], got=_s(cmp_got), expected=_s(cmp_ref),
-                    expected_from=f"{self.mod.__name__}:{self.cfn.__name__} on the Cartesian view")
+                    expected_from=(f"spec function vv.specs.SPECS[{self.pk},{self.modname}] (documented definition)" if self.spec is not None
+                                   else f"{self.mod.__name__}:{self.cfn.__name__} on the Cartesian view"))
 
     def model_inputs(self, ctx, model):
         if not model:
